@@ -529,11 +529,12 @@ def registry_problems(case: F.Case, tracks, static: set) -> list[str]:
 # one session
 # ---------------------------------------------------------------------------------------------
 PROP_KINDS = {
-    "C01": ["addedge", "deledge", "addnode", "delnode", "delnode", "swap", "updattrs", "updattrs", "paint", "regfeat"],
+    "C01": ["addedge", "deledge", "addnode", "delnode", "delnode", "swap", "updattrs", "updattrs", "paint", "regfeat",
+            "undo", "undo", "redo"],
     "C02": ["addedge", "deledge", "addnode", "delnode", "swap", "updattrs", "paint", "undo", "undo", "undo", "redo", "redo"],
     "C03": ["addedge", "addedge", "deledge", "addnode", "addnode", "delnode", "swap", "paint", "undo", "redo"],
-    "C04": ["addedge", "deledge", "addnode", "delnode", "swap", "paint", "undo", "redo"],
-    "C05": ["addedge", "deledge", "addnode", "delnode", "swap", "paint", "undo", "redo"],
+    "C04": ["addedge", "addedge", "deledge", "addnode", "delnode", "swap", "paint", "undo", "undo", "undo", "redo"],
+    "C05": ["addedge", "addedge", "deledge", "addnode", "delnode", "swap", "paint", "undo", "undo", "undo", "redo"],
     "C06": ["addedge", "deledge", "addnode", "delnode", "swap", "paint", "undo", "redo", "qnb", "qhas", "qnew"],
     "C07": ["paint", "paint", "paint", "addnode", "delnode", "addedge", "deledge", "undo", "redo"],
     "C08": ["paint", "paint", "addnode", "addnode", "delnode", "addedge", "deledge", "swap", "undo", "redo", "enable", "disable"],
@@ -620,6 +621,11 @@ def run_session(prop: str, spec: dict, rng: random.Random, nops: int, res: Resul
         return ops, outs, states, fails
     queue = list(fixed_ops) if fixed_ops is not None else None
     pending: list[dict] = []  # ops forced by the oracle protocol (undo/redo pairs)
+    if queue is None and prop in ("C04", "C05", "C06") and rng.random() < 0.2:
+        # recompute the id features in bulk on ids that are non-contiguous / have gaps — only as the
+        # first operation: a bulk renumbering under an existing undo history is outside these
+        # properties' quantifier (DESIGN §11.1)
+        pending.append({"op": "enable", "keys": rng.choice([[F.K_TID], [F.K_LIN], [F.K_TID, F.K_LIN]]), "recompute": 1})
     step = 0
     while True:
         if pending:
@@ -666,6 +672,10 @@ def run_session(prop: str, spec: dict, rng: random.Random, nops: int, res: Resul
             res.nontrivial.add(h([sorted(states[-2]["nodes"]), sorted(states[-2]["edges"]), op]))
         if out.startswith("err:other"):
             fail(f"{kind}|unexpected-exception", f"{op} raised {out}")
+            break
+        if kind in ("undo", "redo") and out.startswith("err"):
+            # undo()/redo() never raise on a history of accepted edits: the recorded inverse must apply
+            fail(f"{kind}|raised", f"{kind}() raised ({out}) after the history {[o['op'] for o in ops]}")
             break
         if stop:
             break
